@@ -503,6 +503,7 @@ def run(ctx):
     rec.install_mixed()
     try:
         static_checks(ctx, reg, mix, header)
+        documented_keys_usable(ctx, rng, reg, files, rec, tmp)
         component_cases(ctx, rng, reg, mix, header, files, rec, tmp, configobj)
     finally:
         rec.remove()
@@ -617,6 +618,64 @@ def static_checks(ctx, reg, mix, header):
                           'documented key %s of %s = %s (%s) is not a constructor keyword of the class it selects: an '
                           'input file written from the documentation is rejected' % (key, sec, kw, where),
                           replay=dict(section=sec, selector=kw, key=key, documented=where))
+        else:
+            ctx.validated()
+
+
+def documented_keys_usable(ctx, rng, reg, files, rec, tmp):
+    """every documented key, set to a value of its documented type in an input file, builds the component"""
+    sels, keys = docparse.parse(C.REPO)
+    gen_of = {'Temperature': 'generate_temperature_profile', 'Pressure': 'generate_pressure_profile',
+              'Planet': 'generate_planet', 'Star': 'generate_star', 'Chemistry': 'generate_chemistry_profile',
+              'Gas': 'generate_chemistry_profile', 'Contribution': None, 'Instrument': 'generate_instrument'}
+    field_of = {s[0]: s[3] for s in SECTIONS}
+    seen = set()
+    for sec, kws, key, typ, default, where in keys:
+        if gen_of.get(sec) is None:
+            continue
+        kw = kws[0]
+        if (sec, kw, key) in seen:
+            continue
+        seen.add((sec, kw, key))
+        cands = [i for i in reg[sec] if i['kws'] and kw.lower() in i['kws']]
+        if not cands:
+            continue
+        info = cands[0]
+        if info['name'] == 'PhoenixStar':      # needs the PHOENIX data files, which are not installed
+            ctx.count('documented-key-needs-external-data')
+            continue
+        d = dict(info['defaults'])
+        text = val_of(rng, info['name'], key, d.get(key, 'None'), files) if key in d else None
+        if sec == 'Instrument':
+            text = '3'
+        if text is None:
+            ctx.count('documented-key-no-sample-value')
+            continue
+        ent = {field_of[sec]: kw, key: text}
+        if info['name'] == 'TemperatureFile':
+            ent['filename'] = files['tp']
+            if key == 'press_col':
+                ent[key] = '1'
+        if info['name'] == 'ChemistryFile':
+            ent.update(filename=files['chem'], gases='H2O, CH4')
+        if info['name'] == 'NPoint' and key in ('temperature_points', 'pressure_points'):
+            ent.update(temperature_points='1200, 900', pressure_points='1e4, 1e2')
+        if sec == 'Gas':
+            sections = {'Chemistry': {'chemistry_type': 'taurex', 'fill_gases': 'H2, He', 'H2O': ent}}
+        else:
+            sections = {sec: ent}
+        text_file = file_text(sections)
+        path = os.path.join(tmp, 'dockey.par')
+        open(path, 'w').write(text_file)
+        impl, res = run_impl(rec, path, gen_of[sec])
+        ctx.case(('doc-key-usable', sec, kw, key), nontrivial=True)
+        ctx.count('documented-key-built')
+        if impl[0] != 'ok':
+            ctx.violation('documented-key-unusable:%s:%s:%s' % (sec.lower(), kw, key),
+                          'documented key %s (%s, %s) set to %r in an input file does not build the component: %s%s\n'
+                          '--- input file ---\n%s' % (key, where, typ, ent[key], short(impl),
+                                                     (' ' + repr(res)[:300]) if isinstance(res, BaseException) else '', text_file),
+                          replay=dict(section=sec, selector=kw, key=key, file=text_file))
         else:
             ctx.validated()
 
